@@ -627,33 +627,55 @@ func ruleCtxPoll(c *Ctx) {
 				n++
 				cnt++
 				key := fmt.Sprintf("%s#poll%d", fn, cnt)
-				// expected: if err := ctx.Err(); err != nil { return ..., err }
-				as, ok := parents[x].(*ast.AssignStmt)
-				var ifs *ast.IfStmt
-				if ok {
-					ifs, _ = parents[as].(*ast.IfStmt)
+				// the innermost function (literal) the poll is written in
+				body, results := fd.Body, fd.Type.Results
+				for p := parents[ast.Node(x)]; p != nil; p = parents[p] {
+					if lit, ok := p.(*ast.FuncLit); ok {
+						body, results = lit.Body, lit.Type.Results
+						break
+					}
 				}
-				if ifs == nil || ifs.Init != ast.Stmt(as) || len(as.Lhs) != 1 {
-					// alternative: `if ctx.Err() != nil`
-					if be, ok := parents[x].(*ast.BinaryExpr); ok && be.Op == token.NEQ {
-						if i2, ok := parents[be].(*ast.IfStmt); ok && endsInErrorReturn(info, i2.Body, nil, fd) {
-							c.ok(key, x.Pos(), "poll tested in place and an error is returned")
-							return true
+				// what is done with the polled error, whichever way it is written: returned as it is; stored in a
+				// variable from where every path on which it is non-nil ends in a return that hands it on (decided on
+				// the control-flow graph under the assumption err != nil); or tested in place with an error returned
+				switch par := parents[ast.Node(x)].(type) {
+				case *ast.ReturnStmt:
+					c.ok(key, x.Pos(), "the polled error is returned as it is")
+				case *ast.AssignStmt:
+					var eobj types.Object
+					if len(par.Lhs) == 1 && len(par.Rhs) == 1 {
+						if id, ok := ast.Unparen(par.Lhs[0]).(*ast.Ident); ok {
+							eobj = info.ObjectOf(id)
 						}
 					}
-					c.bad(key, x.Pos(), "ctx.Err() is not consumed by `if err := ctx.Err(); err != nil { return ... err }`: a cancelled context does not stop the transition here")
-					return true
+					if eobj == nil {
+						c.bad(key, x.Pos(), "the polled error is not kept in a variable that could be returned")
+						break
+					}
+					if ok, why := errReaches(info, body, results, par, eobj, nil); ok {
+						c.ok(key, x.Pos(), "cancellation returned")
+					} else {
+						c.bad(key, x.Pos(), "a cancelled context does not stop the transition here: %s (the transition reports success for work it did not complete, or goes on working)", why)
+					}
+				case *ast.BinaryExpr:
+					if (par.Op == token.NEQ || par.Op == token.EQL) && (isNilExpr(info, par.X) || isNilExpr(info, par.Y)) {
+						var cond ast.Expr = par
+						if par.Op == token.EQL {
+							// `if ctx.Err() == nil { work }` : the walker wants the test that is true on cancellation
+							c.bad(key, x.Pos(), "the poll is tested with == nil; write the cancellation branch (`!= nil`) so that it returns the error")
+							break
+						}
+						if ok, why := errReaches(info, body, results, nil, nil, cond); ok {
+							c.ok(key, x.Pos(), "poll tested in place and an error is returned")
+						} else {
+							c.bad(key, x.Pos(), "a cancelled context does not stop the transition here: %s", why)
+						}
+						break
+					}
+					c.bad(key, x.Pos(), "ctx.Err() is compared with something other than nil")
+				default:
+					c.bad(key, x.Pos(), "the result of ctx.Err() is neither returned, stored nor tested: a cancelled context does not stop the transition here")
 				}
-				eobj := info.Defs[as.Lhs[0].(*ast.Ident)]
-				if op, ok := nilCheckOp(info, ifs.Cond, eobj); !ok || op != token.NEQ {
-					c.bad(key, x.Pos(), "the polled error is not tested with != nil")
-					return true
-				}
-				if !endsInErrorReturn(info, ifs.Body, eobj, fd) {
-					c.bad(key, x.Pos(), "on cancellation the branch does not return the polled error (it returns success, continues or drops it): the transition reports success for work it did not complete")
-					return true
-				}
-				c.ok(key, x.Pos(), "cancellation returned")
 			case *ast.SelectorExpr:
 				// ctx used for anything but Err and being passed on
 				id, ok := ast.Unparen(x.X).(*ast.Ident)
